@@ -105,6 +105,7 @@ func main() {
 		// (an example written for the global API does not compile in -o mode and vice versa); all others must have
 		// identical static function text
 		reps := map[string]*renderedVariant{}
+		typeErrs := map[string][]string{}
 		repPkgs := map[string][]*packages.Package{}
 		tagKey := func(rv *renderedVariant) string { return strings.Join(sortedKeys(rv.Tags), "+") }
 		sort.SliceStable(rvs, func(i, j int) bool {
@@ -123,10 +124,28 @@ func main() {
 			c2.Dir = rv.Dir
 			ps, err := packages.Load(&c2, ".")
 			if err != nil || len(ps) == 0 || len(ps[0].Errors) > 0 {
+				if err == nil && len(ps) > 0 {
+					typeErrs[k] = append(typeErrs[k], fmt.Sprintf("%s: %v", rv.Name, ps[0].Errors[0]))
+				}
 				continue
 			}
 			reps[k] = rv
 			repPkgs[k] = ps
+		}
+		// a back end none of whose renderings type-checks any more: the generated parser does not compile (the repository's
+		// tests never compile generated code) - reported as a failed extraction obligation, not as "undecided"
+		noRep := map[string]bool{}
+		for _, rv := range rvs {
+			k := tagKey(rv)
+			if reps[k] == nil && !noRep[k] {
+				noRep[k] = true
+				msg := "no rendering of the back end [" + k + "] type-checks: " + strings.Join(typeErrs[k], "; ")
+				renderObls = append(renderObls, &Obligation{Func: "rendered." + rv.Name, Name: "rendered[" + k + "]/typechecks", Kind: "shape", Goal: "false", Status: "failed", Src: msg, Solver: "go/types", Output: msg})
+			}
+		}
+		for k := range reps {
+			renderObls = append(renderObls, &Obligation{Func: "rendered." + reps[k].Name, Name: "rendered[" + k + "]/typechecks", Kind: "shape", Goal: "true", Status: "proved", Solver: "go/types",
+				Src: "the rendering " + reps[k].Name + " of this back end (after extraction) type-checks and is the one the driver contracts are discharged on"})
 		}
 		for _, rv := range rvs {
 			rep := reps[tagKey(rv)]
@@ -136,7 +155,14 @@ func main() {
 			if len(rv.Shape) == 0 {
 				renderObls = append(renderObls, &Obligation{Func: "rendered." + rv.Name, Name: "rendered." + rv.Name + "/shape:reduce-cases", Kind: "shape", Goal: "true", Status: "proved", Src: "every rendered reduce case has the schematic shape (lhs id; Dollar window; user action; pop of the same size)", Solver: "extraction"})
 			}
-			if rv != rep {
+			for _, sh := range rv.ShapeT {
+				renderObls = append(renderObls, &Obligation{Func: "rendered." + rv.Name, Name: "rendered." + rv.Name + "/shape:" + sanitize(trunc(sh, 60)), Kind: "shape", Goal: "false", Status: "failed", Src: sh, Solver: "extraction", Output: sh})
+			}
+			if len(rv.ShapeT) == 0 {
+				renderObls = append(renderObls, &Obligation{Func: "rendered." + rv.Name, Name: "rendered." + rv.Name + "/shape:translate-cases", Kind: "shape", Goal: "true", Status: "proved", Solver: "extraction",
+					Src: fmt.Sprintf("translate and TraceTranslate are `var conv = zero; switch c { case <int>: conv = <literal> ... }; return conv` with no default clause (%d token codes): a code that is not a case label maps to symbol 0", rv.NTrans)})
+			}
+			if rv != rep && rep != nil {
 				same := true
 				diff := ""
 				for k, txt := range rep.Static {
@@ -158,12 +184,6 @@ func main() {
 				renderObls = append(renderObls, o)
 			}
 		}
-		for _, rv := range rvs {
-			if reps[tagKey(rv)] == nil {
-				fmt.Printf("UNDECIDED-BINDING: no rendering with tags %s type-checks\n", tagKey(rv))
-				os.Exit(3)
-			}
-		}
 		for _, k := range sortedKeys(reps) {
 			rv := reps[k]
 			ps := repPkgs[k]
@@ -180,6 +200,9 @@ func main() {
 					tg += "+packed"
 				} else {
 					tg += "+unpacked"
+				}
+				if rv.Tags["ts"] {
+					tg = "typescript"
 				}
 				v.renderTag[p.PkgPath] = tg
 				v.cs.instantiate(builderPkg, p.PkgPath, rv.Tags)
@@ -321,6 +344,14 @@ func main() {
 	solveS := time.Since(t0).Seconds() - loadS - genS
 
 	rep := &Report{Prop: *prop, Tier: *tier, Seed: *seed, Results: results, Obls: all, LoadS: loadS, GenS: genS, SolveS: solveS, Wall: time.Since(t0).Seconds(), V: v, ReplayDir: *replayDir, HarnessDir: *harnessDir, Repo: *repo}
+	for _, tg := range v.renderTag {
+		if tg == "typescript" {
+			rep.ExtraAssumptions = append(rep.ExtraAssumptions,
+				"TypeScript driver: verified on a line-by-line transliteration into Go of the text the generator emits (rules R1-R9 in govc/tsrender.go; dropped: comments, semicolons, user prologue/epilogue/union members/action bodies, the numbers of the table literal)",
+				"TypeScript semantics not captured by the transliteration: number is an IEEE double (exact below 2^53), an out-of-range array read yields undefined instead of stopping (all reads are proved in range), undefined and null are both nil, exceptions thrown by user code")
+			break
+		}
+	}
 	for _, si := range strings.Split(*standins, ",") {
 		if si == "" {
 			continue
